@@ -919,7 +919,9 @@ func (g *egen) concStmt() *RS {
 		pool = append(pool, &RS{Op: "call", E: &RE{Op: "call", Kind: "three", Sym: "S.Sub.Mark", Args: []*RE{lit("int64", strconv.Itoa(g.noteN))}}})
 	}
 	if r.chance(1, 6) || (g.illP > 50 && r.chance(1, 2)) {
-		switch r.intn(4) {
+		switch r.intn(5) {
+		case 4:
+			pool = append(pool, &RS{Op: "call", E: &RE{Op: "call", Kind: "method", Sym: "S.Blow", Args: []*RE{lit("int64", "1")}}})
 		case 0:
 			pool = append(pool, &RS{Op: "call", E: &RE{Op: "call", Kind: "func", Sym: "boom"}})
 		case 1:
